@@ -7,6 +7,7 @@ import (
 	"strings"
 
 	"github.com/emmansun/gmsm/sm9"
+	hk "github.com/emmansun/gmsm/verifhook"
 
 	"verifh/mon"
 	ref "verifh/ref/sm9"
@@ -47,7 +48,7 @@ type artefact struct {
 }
 
 func soundArtefacts(round int) []artefact {
-	as := []artefact{{"sig/der", 104}, {"sig/h", 32}, {"sig/S", 65}}
+	as := []artefact{{"sig/der", 104}, {"sig/h", 32}, {"sig/S", 65}, {"sig/nearmiss", 32}}
 	for mi, m := range ref.Modes {
 		n := c2Len(m, soundMsgLen(round, mi))
 		as = append(as, artefact{"ct/" + m.String() + "/raw", 96 + n},
@@ -67,6 +68,7 @@ type roundData struct {
 	spub      *sm9.SignMasterPublicKey
 	sigH      []byte
 	sigS      []byte
+	dsA       []byte // the signer's private key 04||x||y (the monitor may use it, an attacker could not)
 	emk       *sm9.EncryptMasterPrivateKey
 	epub      *sm9.EncryptMasterPublicKey
 	euk       *sm9.EncryptPrivateKey
@@ -122,8 +124,8 @@ func buildRound(seed uint64, id int) *roundData {
 	if err != nil {
 		return fail("ParseSignature", err)
 	}
-	rd.sigH, rd.sigS = h, s
-	rd.data["sig/h"], rd.data["sig/S"] = h, s
+	rd.sigH, rd.sigS, rd.dsA = h, s, suk.Bytes()
+	rd.data["sig/h"], rd.data["sig/S"], rd.data["sig/nearmiss"] = h, s, h
 	if rd.emk, err = sm9.GenerateEncryptMasterKey(rnd); err != nil {
 		return fail("GenerateEncryptMasterKey", err)
 	}
@@ -324,6 +326,39 @@ func sweep(c *mon.Case, x *mon.Ctx, rd *roundData, a artefact, lo, hi int) {
 				return
 			}
 			c.Fail("accept", "Verify accepts an altered S (%s): %x (honest %x)", kind, m, orig)
+		case a.name == "sig/nearmiss":
+			// h' differs from h in one byte and S' = S + [h-h']dsA, so that the verifier
+			// recomputes exactly the honest w and H2(M||w) = h: the pair is wrong ONLY in
+			// that byte of h - refused unless the final comparison skips it
+			hv := new(big.Int).SetBytes(m)
+			if len(m) != 32 || hv.Sign() == 0 || hv.Cmp(ref.N) >= 0 {
+				c.Event("mutants", -1)
+				return
+			}
+			d := new(big.Int).Sub(new(big.Int).SetBytes(orig), hv)
+			d.Mod(d, ref.N)
+			sp, dp := g1From(rd.sigS[1:]), g1From(rd.dsA[1:])
+			if sp == nil || dp == nil {
+				c.Fail("mismatch", "honest S or dsA does not decode")
+				return
+			}
+			t, err := new(hk.G1).ScalarMult(dp, ref.Bytes32(d))
+			if err != nil {
+				return
+			}
+			s2 := t.Add(t, sp).MarshalUncompressed()
+			var ok1, ok2 bool
+			if !c.Call("Verify(near miss "+kind+")", func() {
+				ok1 = sm9.Verify(rd.spub, rd.uid, rd.hid, rd.msg, hv, s2)
+				ok2 = sm9.VerifyASN1(rd.spub, rd.uid, rd.hid, rd.msg, ref.EncodeSignature(m, s2))
+			}) {
+				return
+			}
+			if !ok1 && !ok2 {
+				refused()
+				return
+			}
+			c.Fail("accept", "Verify=%v VerifyASN1=%v accept (h', S') with h' = %x differing from H2(M||w') = %x only in %s (S' = S + [h-h']dsA = %x)", ok1, ok2, m, orig, kind, s2)
 		case strings.HasPrefix(a.name, "ct/"):
 			sweepCipher(c, rd, a.name, kind, m, orig)
 		case a.name == "wrap/raw" || a.name == "wrap/der":
